@@ -540,4 +540,30 @@ theorem step_ghost (w : World) (os : List Out) (a : Act) :
   cases a <;> simp only [step, hb] <;> (repeat' split) <;> (try cases ‹ReqFail›) <;>
     simp [toBackoff, fail, emit, startListing, rewatch] <;> (repeat' split) <;> simp_all
 
+theorem run_ghost (as : List Act) : ∀ (w : World) (os : List Out),
+    run { w with outs := os } as
+      = { run { w with outs := [] } as with outs := (run { w with outs := [] } as).outs ++ os } := by
+  induction as with
+  | nil => intro w os; simp [run]
+  | cons a as ih =>
+      intro w os
+      have e1 : run { w with outs := os } (a :: as) = run (step { w with outs := os } a) as := rfl
+      have e2 : run { w with outs := [] } (a :: as) = run (step { w with outs := [] } a) as := rfl
+      rw [e1, e2, step_ghost w os a]
+      have h1 := ih (step { w with outs := [] } a) ((step { w with outs := [] } a).outs ++ os)
+      have h2 := ih (step { w with outs := [] } a) (step { w with outs := [] } a).outs
+      have eta : ({ step { w with outs := [] } a with outs := (step { w with outs := [] } a).outs } : World)
+          = step { w with outs := [] } a := rfl
+      rw [eta] at h2
+      rw [h1, h2]
+      simp [List.append_assoc]
+
+/-- what a run adds to the record, and that it is added in front of it -/
+theorem run_outs (w : World) (as : List Act) :
+    (run w as).outs = (run { w with outs := [] } as).outs ++ w.outs := by
+  have h := run_ghost as w w.outs
+  have eta : ({ w with outs := w.outs } : World) = w := rfl
+  rw [eta] at h
+  rw [h]
+
 end Kopf.C19
